@@ -26,7 +26,9 @@ EXTRA = [
     ('expression', '1e3 + 1.50 + .5 + 10'), ('expression', '(not a) = b'), ('expression', 'a != (not b)'),
     ('expression', '- a ** 2'), ('expression', '(- a) ** 2'), ('expression', 'a - - b'), ('expression', '2 ** - a'),
     ('property', 'globally: no a as M {yaw(@M) > 0}'), ('property', 'globally: a as M causes b {yaw(@M) > 0 and x = roll(@M)}'),
-    ('property', 'globally: no a as M {forall i in @M.xs: @i > yaw(@M)}'), ('property', 'after a as M {pitch(@M) = 0}: no b {x = yaw(@M)}'),
+    ('property', 'globally: no a as M {forall i in @M.xs: @i > yaw(@M)}'),
+    ('property', 'globally: no a as M {xs[yaw(@M)] > 0}'), ('property', 'globally: some a as M {x in {roll(@M), 1} or y in [0 to pitch(@M)]}'),
+    ('property', 'globally: no a as M {abs(yaw(@M)) < 1 and zs[i + yaw(@M)].w = 2}'), ('property', 'after b as B: no a as M {xs[yaw(@B)] > yaw(@M)}'), ('property', 'after a as M {pitch(@M) = 0}: no b {x = yaw(@M)}'),
     ('specification', '# id: p1\n# title: "T 1"\nglobally: no a\n\n# description: "d"\nafter b: some c {x > 0} within 100 ms'),
 ]
 
